@@ -98,7 +98,7 @@ theorem parseEmptyFields_instance (fenv : FEnv) (fs : CFields) (ifs : IFields) (
   | .child name optional dflt t rest, .sub n v irest, h =>
     obtain ⟨hn, hget, hv, hrest⟩ := h
     subst hn
-    simp only [parseEmptyFields]
+    simp only [parseEmptyFields, childDV]
     match v, hv, hget with
     | .nul, hv, hget =>
       obtain ⟨hopt, hq⟩ := hv
@@ -193,18 +193,18 @@ theorem parseEmptyFields_own (fenv : FEnv) (fs : CFields) (h : OwnStable fenv fs
       unfold QuietNone at hq
       refine ⟨.sub name .nul r, ds, ?_, ?_⟩
       · simp [constructFields, hc]
-      · simp [parseEmptyFields, hopt, hq, hp]
+      · simp [parseEmptyFields, childDV, hopt, hq, hp]
     | factoryCls =>
       obtain ⟨i, hci, hfit⟩ := hd
       refine ⟨.sub name i r, ds, ?_, ?_⟩
       · simp [constructFields, hci, hc]
-      · simp only [parseEmptyFields, hci]
+      · simp only [parseEmptyFields, childDV, hci]
         rw [parseEmptyChild_instance fenv t i none (false || optional) optional (Or.inl rfl) hfit]
         simp [hp]
     | factoryInst i =>
       refine ⟨.sub name i r, ds, ?_, ?_⟩
       · simp [constructFields, hc]
-      · simp only [parseEmptyFields]
+      · simp only [parseEmptyFields, childDV]
         rw [parseEmptyChild_instance fenv t i none (false || optional) optional (Or.inl rfl) hd]
         simp [hp]
 
@@ -762,40 +762,82 @@ theorem allLeavesEq_iff (r : IFields) (ds : List (Str × Val)) :
       allLeavesEq_iff rest ds]
   | .sub _ _ rest => simp only [IFields.allLeavesEq, IFields.leaves, allLeavesEq_iff rest ds]
 
+/-- the members' half of the Optional rule follows from the whole subtree being at its default -/
+theorem membersAtDefault_of_atDefaultF : ∀ (fs : CFields) (dv : DV) (r : IFields),
+    atDefaultF fs dv r = true → membersAtDefault fs dv r = true
+  | .nil, _, .nil, _ => by simp [membersAtDefault]
+  | .leaf f rest, dv, .leaf n v irest, h => by
+    simp only [atDefaultF, Bool.and_eq_true] at h
+    simp only [membersAtDefault]
+    exact membersAtDefault_of_atDefaultF rest dv irest h.2
+  | .child name o dflt t rest, dv, .sub n v irest, h => by
+    simp only [atDefaultF, Bool.and_eq_true] at h
+    simp only [membersAtDefault, Bool.and_eq_true]
+    exact ⟨h.1, membersAtDefault_of_atDefaultF rest dv irest h.2⟩
+  | .nil, _, .leaf _ _ _, h => by simp [atDefaultF] at h
+  | .nil, _, .sub _ _ _, h => by simp [atDefaultF] at h
+  | .leaf _ _, _, .nil, h => by simp [atDefaultF] at h
+  | .leaf _ _, _, .sub _ _ _, h => by simp [atDefaultF] at h
+  | .child _ _ _ _ _, _, .nil, h => by simp [atDefaultF] at h
+  | .child _ _ _ _ _, _, .leaf _ _ _, h => by simp [atDefaultF] at h
+
 mutual
+/-- a quiet subtree below a None'd Optional member parses, and what is built is at its default in the sense of
+    `_is_at_default` (so it cannot wake the enclosing Optional member, fixes 3f531df / f635f07) -/
 theorem quietT_ok (fenv : FEnv) : ∀ (t : CTree) (optional : Bool), QuietT fenv t →
-    ∃ v, parseEmptyChild fenv t none .presentNone true optional = .ok v
+    ∃ v, parseEmptyChild fenv t none .presentNone true optional = .ok v ∧ atDefaultT t .presentNone v = true
   | .mk cls fs, optional, h => by
     simp only [QuietT] at h
-    obtain ⟨r, _, hp⟩ := quietF_parse fenv fs h
+    obtain ⟨r, _, hat, hp⟩ := quietF_parse fenv fs h
     simp only [parseEmptyChild, hp]
-    split <;> exact ⟨_, rfl⟩
+    split
+    · exact ⟨_, rfl, by simp [atDefaultT]⟩
+    · exact ⟨_, rfl, by simp [atDefaultT, hat]⟩
 theorem quietF_parse (fenv : FEnv) : ∀ (fs : CFields), QuietF fenv fs →
-    ∃ r, IFields.leaves r = ownLeafDefaults fs ∧
+    ∃ r, IFields.leaves r = ownLeafDefaults fs ∧ atDefaultF fs .presentNone r = true ∧
       parseEmptyFields fenv fs none .presentNone true = .ok (r, ownLeafDefaults fs)
-  | .nil, _ => ⟨.nil, rfl, rfl⟩
+  | .nil, _ => ⟨.nil, rfl, by simp [atDefaultF], rfl⟩
   | .leaf f rest, h => by
     simp only [QuietF] at h
-    obtain ⟨r, hl, hp⟩ := quietF_parse fenv rest h.2
-    refine ⟨.leaf f.name (defaultVal f.default) r, by simp [IFields.leaves, ownLeafDefaults, hl], ?_⟩
+    obtain ⟨r, hl, hat, hp⟩ := quietF_parse fenv rest h.2
+    refine ⟨.leaf f.name (defaultVal f.default) r, by simp [IFields.leaves, ownLeafDefaults, hl],
+      by simp [atDefaultF, leafWD, hat], ?_⟩
     simp [parseEmptyFields, h.1, hp, ownLeafDefaults]
   | .child name optional dflt t rest, h => by
     simp only [QuietF] at h
-    obtain ⟨r, hl, hp⟩ := quietF_parse fenv rest h.2
-    obtain ⟨v, hv⟩ := quietT_ok fenv t optional h.1
-    refine ⟨.sub name v r, by simp [IFields.leaves, ownLeafDefaults, hl], ?_⟩
-    simp [parseEmptyFields, hv, hp, ownLeafDefaults]
+    obtain ⟨r, hl, hat, hp⟩ := quietF_parse fenv rest h.2
+    obtain ⟨v, hv, hvat⟩ := quietT_ok fenv t optional h.1
+    refine ⟨.sub name v r, by simp [IFields.leaves, ownLeafDefaults, hl],
+      by simp [atDefaultF, childDV, hvat, hat], ?_⟩
+    simp [parseEmptyFields, childDV, hv, hp, ownLeafDefaults]
 end
 
 /-- **an Optional member left at None stays None** — no longer assumed: it holds for every subtree (any depth) whose
-    leaves come back as their own defaults and whose own leaf names are distinct (as dataclass fields are) -/
+    leaves come back as their own defaults and whose own leaf names are distinct (as dataclass fields are); the
+    nested members are built at their defaults, which the rule now inspects too (`membersAtDefault`) -/
 theorem quietNone_of_quietF (fenv : FEnv) (cls : Str) (fs : CFields) (h : QuietF fenv fs)
     (hnd : (CFields.leafNames fs).Nodup) : QuietNone fenv (.mk cls fs) := by
-  obtain ⟨r, hl, hp⟩ := quietF_parse fenv fs h
+  obtain ⟨r, hl, hat, hp⟩ := quietF_parse fenv fs h
   have hall : r.allLeavesEq (ownLeafDefaults fs) = true := by
     rw [allLeavesEq_iff, hl]
     exact lookup_self_of_nodup _ (by rw [ownLeafDefaults_names]; exact hnd)
-  simp [QuietNone, parseEmptyChild, hp, hall]
+  simp [QuietNone, parseEmptyChild, hp, hall, membersAtDefault_of_atDefaultF fs .presentNone r hat]
+
+/-- `class K2: x: Literal["0", 0] = "0"`, `class K1: c: K2 = field(default_factory=K2)` — and `m: Optional[K1] = None` -/
+def wakeTree : CTree :=
+  .mk "K1".toList (.child "c".toList false .factoryCls (.mk "K2".toList (.leaf literalLeaf .nil)) .nil)
+
+/-- the hypothesis of `quietNone_of_quietF` cannot be dropped, and since fixes 3f531df / f635f07 it matters at EVERY
+    depth: a leaf of a NESTED member that comes back changed (here the open finding C01-literal-name-collision) makes
+    the enclosing `Optional[K1] = None` member come back built, although K1 has no leaf of its own -/
+theorem c01_nested_changed_leaf_wakes_optional : ¬ QuietNone [] wakeTree := by
+  have h : parseEmptyChild [] wakeTree none .presentNone true true =
+      .ok (.inst "K1".toList (.sub "c".toList (.inst "K2".toList (.leaf "x".toList (.sc (.int 0)) .nil)) .nil)) := by rfl
+  intro hq
+  unfold QuietNone at hq
+  rw [h] at hq
+  injection hq with hq
+  cases hq
 
 /-! ### leaves of a quiet subtree, syntactically -/
 
